@@ -36,6 +36,7 @@ class Conn(object):
         self.opened_at = sim.now
         self.closed_at = None
         self.fault_log = []          # (vtime, kind)
+        self.current_send_seq = 0
 
     # ------------------------------------------------------------ server -> client
     def server_send(self, data, latency=None, cuts=None):
@@ -134,15 +135,18 @@ class Conn(object):
         self.c2s_inflight += len(data)
         t = max(sim.now + self.net.latency(self), self.last_c2s)
         self.last_c2s = t
+        mark = sim.nlog            # when the driver handed these bytes to the socket
         if self.blackhole:
-            self.held_c2s.append(data)
+            self.held_c2s.append((data, mark))
         else:
-            sim.at_abs(t, (lambda: self._deliver_to_server(data)), 'c2s %s %dB' % (self.label, len(data)))
+            sim.at_abs(t, (lambda: self._deliver_to_server((data, mark))), 'c2s %s %dB' % (self.label, len(data)))
 
-    def _deliver_to_server(self, data):
+    def _deliver_to_server(self, item):
+        data, mark = item
         if self.blackhole:
-            self.held_c2s.append(data)
+            self.held_c2s.append(item)
             return
+        self.current_send_seq = mark
         self.c2s_inflight -= len(data)
         if not self.client_closed:
             self.sock._notify()      # room in the send buffer again
